@@ -1114,9 +1114,16 @@ pub(crate) fn interpret_isodatetime_offset(
 
     // 2. Let isoDateTime be CombineISODateAndTimeRecord(isoDate, time).
     // TODO: Deal with offsetBehavior == wall.
-    match (is_exact, offset_nanos) {
+    // An exact offset behaviour (a `Z` designator) denotes the UTC instant itself (offset 0);
+    // an explicit offset is used as given when the offset option is `use`.
+    let exact_offset = match (is_exact, offset_nanos) {
+        (true, offset) => Some(offset.unwrap_or(0)),
+        (false, Some(offset)) if offset_option == OffsetDisambiguation::Use => Some(offset),
+        _ => None,
+    };
+    match (exact_offset, offset_nanos) {
         // 4. If offsetBehaviour is exact, or offsetBehaviour is option and offsetOption is use, then
-        (true, Some(offset)) if offset_option == OffsetDisambiguation::Use => {
+        (Some(offset), _) => {
             // a. Let balanced be BalanceISODateTime(isoDate.[[Year]], isoDate.[[Month]],
             // isoDate.[[Day]], time.[[Hour]], time.[[Minute]], time.[[Second]], time.[[Millisecond]],
             // time.[[Microsecond]], time.[[Nanosecond]] - offsetNanoseconds).
@@ -1142,7 +1149,7 @@ pub(crate) fn interpret_isodatetime_offset(
         }
         // 5. Assert: offsetBehaviour is option.
         // 6. Assert: offsetOption is prefer or reject.
-        (_, Some(offset))
+        (None, Some(offset))
             if offset_option == OffsetDisambiguation::Prefer
                 || offset_option == OffsetDisambiguation::Reject =>
         {
